@@ -117,6 +117,15 @@ fn c18_static<T: HLabel>(ctx: &mut Ctx, case: &StaticCase, built: &Built<T>, rng
                 for a in picks {
                     v.push(Query { kind: t.kind, args: vec![a], cert: rng.pct(50) });
                 }
+                if case.family == "many-components" {
+                    // the unattacked arguments (accepted under every semantics), with certificate: the
+                    // certificate has to be completed on all the other components
+                    for a in 0..case.abs.n {
+                        if !case.abs.att.iter().any(|(x, y)| *x == a || *y == a) {
+                            v.push(Query { kind: t.kind, args: vec![a], cert: true });
+                        }
+                    }
+                }
                 // lists of 2-3 arguments: the bound is per component, whatever the number of listed arguments
                 if case.abs.n >= 2 {
                     let k = 2 + rng.below(2);
@@ -515,6 +524,7 @@ pub fn run_c18(ctx: &mut Ctx) {
         ("lattice", if q { 6_000 } else { 90_000 }),
         ("dense", if q { 2_000 } else { 30_000 }),
         ("union", if q { 2_400 } else { 40_000 }),
+        ("many-components", if q { 320 } else { 5_000 }),
         ("dup", if q { 1_000 } else { 15_000 }),
         ("dynamic", if q { 12_000 } else { 200_000 }),
         ("cli-adm-rich", if q { 48 } else { 1_500 }),
@@ -566,7 +576,7 @@ pub fn run_c18(ctx: &mut Ctx) {
                 let kind = crate::present::random_kind(&mut rng, &case.abs);
                 case.pres = crate::present::present(&case.abs, kind, &mut rng);
             }
-            if case.abs.n > 10 {
+            if case.abs.n > 10 && family != "many-components" {
                 continue;
             }
             ctx.count(&format!("cases/{}/{}", family, if case.abs.is_connected() { "connected" } else { "several-components" }));
